@@ -188,34 +188,46 @@ theorem C05_reject_malformed (u mid : List Char) (rest : List (List Char)) :
 example : pyInt "1.5".toList = none ∧ pyInt "x".toList = none ∧ pyInt "".toList = none ∧
     unitOfName? "months" = none ∧ lexIso "2015-13".toList = none := by decide +kernel
 
-/-- A unit finer than the precision of the date is rejected — **as the code's weights define
-    "finer"** (`unit_weights`, regenerated from the source): the date's own unit must not
-    outweigh the requested unit.  Partial: the statement of the property asks for every finer
-    unit; with the current table `week` and `month` have equal weight, so `week:<YYYY-MM>` is
-    accepted (open finding F-C05, shown by `C05_week_month_counterexample`). -/
-theorem C05_reject_finer_unit_partial (u mid : List Char) (rest : List (List Char))
+/-- how coarse a dated unit is: a year is coarser than a month, a month than a week, a week than a
+    day or a weekday (a calendar fact, independent of the code's `unit_weights`) -/
+def coarseness : DUnit → Nat
+  | .year => 4 | .month => 3 | .week => 2 | .day => 1 | .weekday => 1 | .eternity => 5
+
+/-- the code's test (the weights regenerated from the source, plus the week-in-month clause of
+    repair F-C05) decides exactly "the unit is finer than the date's precision" -/
+theorem C05_finer_test_exact (unit base : DUnit) (hu : unit ≠ .eternity) (hb : base ≠ .eternity) :
+    finerThanDate unit base = true ↔ coarseness unit < coarseness base := by
+  cases unit <;> cases base <;> first
+    | exact absurd rfl hu
+    | exact absurd rfl hb
+    | decide +kernel
+
+/-- A unit finer than the precision of the date given is rejected: `month:2014`, `day:2014-03`,
+    `week:2015-01`, `weekday:2015-W01` … — every unit, every date text, every size field. -/
+theorem C05_reject_finer_unit (u mid : List Char) (rest : List (List Char))
     (unit : DUnit) (base : Period)
     (hu : unitOfName? (String.ofList u) = some unit) (hb : parseIsoPeriod mid = .ok base)
-    (hfiner : unitWeight base.unit > unitWeight unit) : ∃ e, parseUnitForm u mid rest = .error e := by
+    (hbe : base.unit ≠ .eternity)
+    (hfiner : coarseness unit < coarseness base.unit) : ∃ e, parseUnitForm u mid rest = .error e := by
   unfold parseUnitForm
   split
   · exact ⟨_, rfl⟩
   · rw [hu]
-    cases unit <;> simp only [hb] <;> first
-      | exact ⟨_, rfl⟩
-      | (split
-         · exact ⟨_, rfl⟩
-         · rw [if_pos hfiner]; exact ⟨_, rfl⟩)
+    cases hunit : unit with
+    | eternity => exact ⟨_, rfl⟩
+    | _ =>
+      all_goals
+        simp only [hb]
+        split
+        · exact ⟨_, rfl⟩
+        · have hf : finerThanDate unit base.unit = true :=
+            (C05_finer_test_exact unit base.unit (by rw [hunit]; decide) hbe).2 hfiner
+          rw [hunit] at hf
+          rw [if_pos hf]; exact ⟨_, rfl⟩
 
-/-- the finer pairs the generated weights do reject, and the one they do not -/
-theorem C05_finer_units_by_weight :
-    unitWeight .year > unitWeight .month ∧ unitWeight .year > unitWeight .week ∧
-    unitWeight .year > unitWeight .day ∧ unitWeight .year > unitWeight .weekday ∧
-    unitWeight .month > unitWeight .day ∧ unitWeight .month > unitWeight .weekday ∧
-    unitWeight .week > unitWeight .day ∧ unitWeight .week > unitWeight .weekday ∧
-    ¬ (unitWeight .month > unitWeight .week) := by decide +kernel
-
-theorem C05_week_month_counterexample :
-    parsePeriod "week:2015-01".toList = .ok ⟨.week, ⟨2015, 1, 1⟩, 1⟩ := by decide +kernel
+/-- the case that was accepted before the repair (F-C05) -/
+theorem C05_week_in_month_rejected :
+    parsePeriod "week:2015-01".toList = .error "period" ∧ parsePeriod "week:2015-01:3".toList = .error "period" ∧
+    parsePeriod "month:2015-W01".toList = .ok ⟨.month, ⟨2014, 12, 29⟩, 1⟩ := by decide +kernel
 
 end OFCore
